@@ -51,7 +51,7 @@ def main(argv=None):
     ap.add_argument('--src', default='/repo')
     ap.add_argument('--only', default=None)
     ap.add_argument('--replay', default=None)
-    ap.add_argument('--jobs', type=int, default=int(os.environ.get('VERIF_JOBS', '8')))
+    ap.add_argument('--jobs', type=int, default=int(os.environ.get('VERIF_JOBS', '14')))
     ap.add_argument('--tag', default='')
     ap.add_argument('--no-evidence', action='store_true')
     ap.add_argument('-v', action='store_true')
